@@ -9,6 +9,7 @@ expectations the Rust side computed from the Rust crates.
 """
 import importlib.util
 import json
+import os
 import sys
 
 mode, work, result_path = sys.argv[1], sys.argv[2], sys.argv[3]
